@@ -75,7 +75,7 @@ func (c *Ctx) c07Effect() error {
 		{goat.VerifInstr{Code: "LEN"}, []goat.Value{sl()}}, {goat.VerifInstr{Code: "MAKE", A: 23}, []goat.Value{i(2)}},
 		{goat.VerifInstr{Code: "GET"}, []goat.Value{sl(), i(1)}}, {goat.VerifInstr{Code: "GETOK"}, []goat.Value{mp(), i(1)}},
 		{goat.VerifInstr{Code: "SET"}, []goat.Value{i(9), sl(), i(1)}}, {goat.VerifInstr{Code: "DELETE"}, []goat.Value{mp(), i(1)}},
-		{goat.VerifInstr{Code: "SLICE"}, []goat.Value{sl(), i(0), i(2)}}, {goat.VerifInstr{Code: "COPY"}, []goat.Value{sl(), sl()}},
+		{goat.VerifInstr{Code: "SLICE"}, []goat.Value{sl(), i(0), i(2)}}, {goat.VerifInstr{Code: "COPY"}, []goat.Value{sl(), sl()}}, {goat.VerifInstr{Code: "COPY", C: 1}, []goat.Value{sl(), sl()}},
 		{goat.VerifInstr{Code: "APPEND", A: 3}, []goat.Value{sl(), i(4), i(5)}}, {goat.VerifInstr{Code: "NEWSLICE", A: 23, B: 2}, []goat.Value{i(4), i(5)}},
 		{goat.VerifInstr{Code: "NEWMAP", A: 23, B: 23, C: 2}, []goat.Value{i(4), i(5)}},
 		{goat.VerifInstr{Code: "FASTGETINT", A: 2, B: 1}, nil}, {goat.VerifInstr{Code: "FASTSETINT", A: 2, B: 1}, []goat.Value{i(4)}},
@@ -148,6 +148,9 @@ func runC07(c *Ctx) error {
 		"func f(x int) int { switch x { case 1, 2: return 12; case 3: return 3 }; return 0 }; a := f(1)",
 		"func g() (int, int) { return 1, 2 }; func f() int { a, _ := g(); _, b := g(); g(); return a + b }; x := f()",
 		"func f() int { r := 0; for i := 0; i < 3; i++ { switch i { case 7: r += 100; default: break }; r += 1 }; return r }; x := f()",
+		"func f() int { a := []int{1, 2, 3}; e := make([]int, 2); n := copy(e, a); copy(e, a[1:]); if copy(e, a) > 1 { n++ }; return n + e[0] }; x := f()",
+		"const K = 3; func f(_ int, _ int, c ...float64) float64 { const k = K + 1; var b byte = 255; b += k; return c[0]/2 + float64(b) }; x := f(1, 2, 5)",
+		"type T struct { A int }; func (t *T) M(xs ...byte) byte { return xs[0] + 200 }; func f() int { t := &T{}; var a, b int = 1, 2; var p, q = t.M(100), t.M(1, 2); return a + b + int(p) + int(q) }; x := f()",
 	}
 	for _, s := range corpus {
 		jobs = append(jobs, job{s, "strict"})
